@@ -54,7 +54,7 @@ def main():
             clean()
         meta['regress'] = {'date': time.strftime('%Y-%m-%d %H:%M'), 'results': res}
         json.dump(meta, open(f'{d}/meta.json', 'w'), indent=1)
-    sh('python3 tools/gen.py && python3 tools/gen_ast.py')
+    sh('python3 tools/gen.py && python3 tools/gen_ast.py && python3 tools/gen_witness.py')
     print(f'\n{len(rows)} runs, {bad} not detected')
     return 1 if bad else 0
 
